@@ -415,6 +415,7 @@ def c01():
     obs += page_obs("C01", [E_FREE, E_COLLECT], sizes=((32, 3),), flavours=("secure",), tier="thorough", timeout=3600, std_checks=False)
     obs += page_obs("C01", [E_MALLOC, E_FREE, E_COLLECT], sizes=((48, 3),), flavours=("debug",), tier="thorough", timeout=3000)
     obs += page_obs("C01", [E_MALLOC, E_FREE, E_COLLECT, E_EXTEND], sizes=((16, 6), (80, 4), (1024, 3)), flavours=("release", "secure"), tier="thorough")
+    obs += queue_obs("C01")
     return obs
 
 
@@ -552,4 +553,77 @@ PROPS["C19"] = dict(
     outside="the dynamic loader's symbol interposition and whole programs under LD_PRELOAD; the C++ build of the library (operator new as C++ functions, exceptions); strdup/strndup/realpath contents; valloc/pvalloc page alignment (mock blocks are small)",
     assumptions=API_STUBS + ["abort(): asserted to be reachable only from the throwing operator new forms"],
     trusted=["api_logic.c mock heap"],
+)
+
+
+# ------------------------------------------------------------------------------------------------
+# C03 size/alignment contract: aligned allocation logic (api_logic.c), interior pointers on pages (page_layer.c), natural alignment
+def c03():
+    obs = [
+        api_ob("C03.aligned", "h_aligned", funcs=REA_FUNCS, cost=200, std_checks=False, unwind=135,
+               bounds="every size <= 8MiB, every power-of-two alignment <= 2^40, every offset; small-page free block absent/aligned/misaligned; blocks are address ranges only"),
+        api_ob("C03.natural", "h_natural", funcs=["mi_malloc_is_naturally_aligned", "mi_good_size", "mi_bin", "_mi_bin_size"], cost=30, unwind=4,
+               bounds="every size and power-of-two alignment"),
+        api_ob("C03.realloc_aligned_at", "h_realloc_aligned", 2, funcs=REA_FUNCS, cost=90, defines=SMALLB,
+               bounds="as C05.realloc_aligned_at (re-allocation keeps the alignment)"),
+    ]
+    obs += page_obs("C03", [E_USABLE, E_FREE], sizes=((48, 4),), flavours=("release",))
+    obs += page_obs("C03", [E_USABLE], sizes=((48, 3),), flavours=("debug",), tier="thorough", timeout=3000)
+    for b in (2, 6, 13, 33, 48):
+        obs.append(O("C03.page_start.bin%02d" % b, "c16_arith.c", "h_page_start", defines=["BIN=%d" % b], funcs=["_mi_segment_page_start_from_slice"], cost=30,
+                     bounds="real bin %d: page start is block-size aligned (natural alignment guarantee)" % b))
+    obs += queue_obs("C03", which=("fullmoves",))
+    return obs
+
+
+PROPS["C03"] = dict(
+    obligations=c03,
+    bounds="aligned allocation: full-width symbolic size/alignment(<=2^40)/offset against the mock core; interior pointers: pages of 4 blocks of 48 bytes with any 8-aligned (usable size: any byte) adjustment; page starts for real bins",
+    outside="huge-alignment segment layout (mi_segment_huge_page_alloc / _mi_os_alloc_aligned_at_offset composition is only covered at the OS level, C11); mi_usable_size >= n for plain malloc is C16.bin/good_size + C01",
+    assumptions=API_STUBS + PAGE_STUBS,
+    trusted=["api_logic.c", "page_layer.c"],
+)
+
+
+# ------------------------------------------------------------------------------------------------
+# page queues / heaps (queue_layer.c): C10, and queue items of C01/C03/C08
+QUEUE_STUBS = ["two heaps copied from _mi_heap_empty; the deleted heap owns 3 pages of one size class, each in its size queue or the full queue, has_aligned and delayed-free flags symbolic; the backing heap owns 0-2 pages",
+               "_mi_heap_delayed_free_partial/_all: recording stubs (order of the drains is asserted); atomics sequential"]
+
+
+def q_ob(id, entry, **kw):
+    kw.setdefault("unwind", 8)
+    kw.setdefault("unwindset", ["mi_heap_queue_first_update.1:140", "mi_heap_queue_first_update.0:6", "mi_heap_absorb.0:80", "_mi_memcpy_aligned.0:4"])
+    kw.setdefault("timeout", 900)
+    kw.setdefault("native_replay", False)
+    kw.setdefault("replace", {"_mi_heap_delayed_free_partial": "stub_delayed_free_partial", "_mi_heap_delayed_free_all": "stub_delayed_free_all"})
+    d = list(kw.pop("defines", [])) + ["MI_PRIM_THREAD_ID=verif_tid"]
+    return O(id, "queue_layer.c", entry, defines=d, **kw)
+
+
+def queue_obs(prefix, which=("absorb", "fullmoves")):
+    obs = []
+    if "absorb" in which:
+        for af, bh in ((0b000, 0), (0b010, 3), (0b101, 1), (0b111, 2)):
+            obs.append(q_ob(prefix + ".heap_absorb.a%d_b%d" % (af, bh), "h_absorb", defines=["AFULL=%d" % af, "BHAS=%d" % bh], cost=60,
+                            funcs=["mi_heap_absorb", "_mi_page_queue_append", "_mi_page_use_delayed_free", "_mi_page_try_use_delayed_free", "mi_heap_queue_first_update", "mi_heap_reset_pages"],
+                            bounds="3 pages (64-byte class) of the deleted heap, in the full queue: mask %s; backing heap pages: mask %s; flags symbolic" % (bin(af), bin(bh))))
+    if "fullmoves" in which:
+        for af, k in ((0b001, 0), (0b010, 0), (0b110, 1), (0b000, 2), (0b111, 1)):
+            obs.append(q_ob(prefix + ".full_queue_moves.a%d_k%d" % (af, k), "h_fullmoves", defines=["AFULL=%d" % af, "BHAS=0", "KPAGE=%d" % k], cost=40,
+                            funcs=["_mi_page_unfull", "mi_page_to_full", "mi_page_queue_enqueue_from_ex", "mi_page_set_in_full", "mi_heap_page_queue_of", "mi_heap_queue_first_update", "_mi_page_free_collect"],
+                            bounds="3 pages (64-byte class), full-queue mask %s, page %d moved to/from the full queue; flags symbolic" % (bin(af), k)))
+    return obs
+
+
+def c10():
+    return queue_obs("C10")
+
+
+PROPS["C10"] = dict(
+    obligations=c10,
+    bounds="two heaps, 3+2 pages of one size class (64 bytes) distributed over size queue and full queue; delayed-free flags USE/NO",
+    outside="mi_heap_destroy (segment page free), interleavings of mi_heap_delete with remote frees (the delayed-freeing hand-shake is a rely/guarantee obligation not built), heaps with different tags/arenas (abandon path)",
+    assumptions=QUEUE_STUBS,
+    trusted=["queue_layer.c"],
 )
